@@ -421,7 +421,17 @@ fn run_one_shard(def: &PropDef, tier: Tier, shard: u64, nshards: u64, seed: u64)
         let cap = tier.pick(def.caps.0, def.caps.1);
         let cap = std::env::var("VERIF_CAP_S").ok().and_then(|s| s.parse().ok()).unwrap_or(cap);
         let t0 = Instant::now();
-        let mut last_progress = (0u64, Instant::now());
+        // hang detection is in *CPU seconds of the worker* since it entered the current case, so that
+        // a loaded machine cannot turn a slow case into a timeout (wall clock is only a backstop)
+        let cpu_of = |pid: u32| -> Option<f64> {
+            let st = std::fs::read_to_string(format!("/proc/{pid}/stat")).ok()?;
+            let rest = st.rsplit_once(") ")?.1;
+            let f: Vec<&str> = rest.split(' ').collect();
+            let ticks: f64 = f.get(11)?.parse::<f64>().ok()? + f.get(12)?.parse::<f64>().ok()?;
+            Some(ticks / 100.0)
+        };
+        let limit_cpu = if def.id == "C18" { 15.0 } else { 60.0 };
+        let mut last_progress = (0u64, Instant::now(), cpu_of(child.id()).unwrap_or(0.0));
         let mut hung = false;
         loop {
             match child.try_wait() {
@@ -430,11 +440,14 @@ fn run_one_shard(def: &PropDef, tier: Tier, shard: u64, nshards: u64, seed: u64)
                 Err(e) => return Err(format!("wait: {e}")),
             }
             let k = read_u64s(&dir.join(format!("shard-{shard}.progress"))).first().copied().unwrap_or(0);
+            let cpu = cpu_of(child.id()).unwrap_or(last_progress.2);
             if k != last_progress.0 {
-                last_progress = (k, Instant::now());
+                last_progress = (k, Instant::now(), cpu);
             }
-            // no progress on one case for 60 s, or overall far past the cap
-            if (k != 0 && k < u64::MAX - 1 && last_progress.1.elapsed() > Duration::from_secs(if def.id == "C18" { 15 } else { 60 })) || t0.elapsed() > Duration::from_secs(cap + 120) {
+            let in_case = k != 0 && k < u64::MAX - 1;
+            let stuck_cpu = in_case && cpu - last_progress.2 > limit_cpu;
+            let stuck_wall = in_case && last_progress.1.elapsed() > Duration::from_secs_f64(limit_cpu * 20.0);
+            if stuck_cpu || stuck_wall || t0.elapsed() > Duration::from_secs(cap * 4 + 600) {
                 let _ = child.kill();
                 hung = true;
                 break;
